@@ -2,6 +2,7 @@
 
 from __future__ import annotations
 
+import functools
 import itertools
 
 PROP = "C03"
@@ -65,12 +66,16 @@ EXPLANATION = (
 )
 
 POOL = list(range(1, 10)) + list(range(101, 106))
+# adversarial values (nodes_c03.make / tag): objects whose duck-typed surface lies about them
+ADV = (200, 201, 202, 203, 204, 205, 206, 210, 211, 212, 213, 214, 220, 221, 222, 223, 224, 225, 226, 227,
+       230, 231, 232, 240, 241, 242, 243)
 
 # ----------------------------------------------------------------------------- static layout
 
 # spec -> (inputs [(label, hint)], outputs [(label, hint)], child (label, spec) | None)
 _I3 = (("x", int), ("y", str), ("z", None))
 _U3 = (("x", None), ("y", None), ("z", None))
+_F3 = (("x", float), ("y", list), ("z", None))
 _O3 = (("ox", None), ("oy", None), ("oz", None))
 SPECS = {
     "SrcU": ((("a", None),), (("o", None),), None),
@@ -81,6 +86,7 @@ SPECS = {
     "M3": (_I3, _O3, ("c", "C3")),
     "MU": (_U3, _O3, ("c", "C3")),
     "MM": (_U3, _O3, ("m", "M3")),
+    "CF": (_F3, _O3, None),
 }
 
 
@@ -91,7 +97,8 @@ def layout(specs):
     def add(spec, path):
         ins, outs, child = SPECS[spec]
         nid = len(nodes)
-        node = {"id": nid, "spec": spec, "path": path, "ins": [], "outs": []}
+        node = {"id": nid, "spec": spec, "path": path, "ins": [], "outs": [], "kids": [],
+                "label": f"n{path[0]}" if len(path) == 1 else path[-1]}
         nodes.append(node)
         for lab, hint in ins:
             node["ins"].append(len(chans))
@@ -101,6 +108,7 @@ def layout(specs):
             chans.append({"id": len(chans), "node": nid, "panel": "out", "label": lab, "hint": hint})
         if child is not None:
             cid = add(child[1], path + (child[0],))
+            node["kids"].append(cid)
             cn = nodes[cid]
             for a, b in zip(node["ins"], cn["ins"]):
                 links.append((a, b))
@@ -113,14 +121,94 @@ def layout(specs):
     return nodes, chans, links
 
 
+def _proto(k):
+    """the python object a value index stands for"""
+    if k < 100:
+        return k
+    if k < 200:
+        return f"s{k}"
+    from . import nodes_c03 as N
+
+    return N.make(k)
+
+
+def _ref_admit(hint, v):
+    """reference verdict `v satisfies the plain-class hint`, computed without the library: the documented courtesy
+    `a pint quantity is judged by its magnitude` applies to REAL quantities only; then instance-of, decided on the
+    type of the object and not on anything the object says about itself"""
+    import pint
+
+    if pint.Quantity in type(v).__mro__:
+        v = v.magnitude
+    return hint in type(v).__mro__
+
+
+@functools.lru_cache(maxsize=None)
 def admit(hint, k):
     if hint is None or k == "ND":
         return True
-    if hint is int:
-        return k < 100
-    if hint is str:
-        return k >= 100
-    raise AssertionError(hint)
+    if not isinstance(k, int):
+        return False  # "ND2" (a NotData instance that is not the marker), unrecognised objects
+    return _ref_admit(hint, _proto(k))
+
+
+def comps_of(nodes, chans, roots, with_wf):
+    """the composites of the pickled object, innermost first, as the six fields of the model's `Comp`; the lookup
+    tables are the label resolution children[owner label].panel[label], computed from the labels alone"""
+    out = []
+
+    def table(kids, panel):
+        """channel -> channel of a direct child with the same (owner label, label) on `panel`"""
+        by = {}
+        for kid in kids:
+            for c in nodes[kid]["ins" if panel == "in" else "outs"]:
+                by[(nodes[kid]["label"], chans[c]["label"])] = c
+        t = []
+        for c in chans:
+            if c["panel"] == panel:
+                hit = by.get((nodes[c["node"]]["label"], c["label"]))
+                if hit is not None:
+                    t.append((c["id"], hit))
+        return t
+
+    def comp(kids, own):
+        ins = [c for kid in kids for c in nodes[kid]["ins"]]
+        couts = [c for kid in kids for c in nodes[kid]["outs"]]
+        rm = []
+        if own is not None:
+            mine = {chans[c]["label"]: c for c in own["outs"]}
+            rm = [(c["id"], mine[c["label"]]) for c in chans if c["panel"] == "out" and c["label"] in mine]
+        return {"I": ins, "RO": table(kids, "out"), "MI": [] if own is None else list(own["ins"]),
+                "RI": table(kids, "in"), "CO": [] if own is None else couts, "RM": rm}
+
+    def visit(n):
+        for kid in nodes[n]["kids"]:
+            visit(kid)
+        if nodes[n]["kids"]:
+            out.append(comp(nodes[n]["kids"], nodes[n]))
+
+    for r in roots:
+        visit(r)
+    if with_wf:
+        out.append(comp(list(roots), None))
+    return out
+
+
+def scope_of(nodes, roots):
+    sc = []
+
+    def visit(n):
+        sc.extend(nodes[n]["ins"] + nodes[n]["outs"])
+        for kid in nodes[n]["kids"]:
+            visit(kid)
+
+    for r in roots:
+        visit(r)
+    return sorted(sc)
+
+
+def tops_of(nodes):
+    return [n["id"] for n in nodes if len(n["path"]) == 1]
 
 
 def hint_leq(a, b):
@@ -465,25 +553,25 @@ def corpus():
 
 
 def _canon(v):
+    """canonical form of a channel value / argument; `no data` is recognised the way the library defines it — by
+    identity with the public marker NOT_DATA — and nothing here calls a method the value could override"""
     from pyiron_workflow.channels import NOT_DATA
+
+    from . import nodes_c03 as N
 
     if v is NOT_DATA:
         return "ND"
-    if isinstance(v, bool):
-        return f"?{v!r}"
-    if isinstance(v, int):
+    t = type(v)
+    if t is type(NOT_DATA):
+        return "ND2"  # an instance of the marker's class that is not the marker
+    if t is int:
         return str(v)
-    if isinstance(v, str) and v.startswith("s") and v[1:].isdigit():
+    if t is str and v.startswith("s") and v[1:].isdigit():
         return v[1:]
-    return f"?{v!r}"
-
-
-def _pyval(k):
-    from pyiron_workflow.channels import NOT_DATA
-
-    if k == "ND":
-        return NOT_DATA
-    return k if k < 100 else f"s{k}"
+    k = N.key_of(v)
+    if k is not None:
+        return str(k)
+    return f"?{N.tag(v)}"
 
 
 def _classify(e):
@@ -516,27 +604,85 @@ def _line(res, st):
     return f"{res} | V {vals} | C {conns} | F {flags} | K {calls}"
 
 
+_VARIANT = None
+
+
+def _variant():
+    """which `__setstate__` the library under test has (the two switches of the model's Cfg), probed once per worker
+    on two tiny objects: does a restored input keep the order of its connections, is a re-forged value link pushed
+    through the receiver's setter.  This only selects the model variant to compare with; the oracle does not know it."""
+    global _VARIANT
+    if _VARIANT is not None:
+        return _VARIANT
+    import pickle
+
+    from pyiron_workflow import Workflow
+
+    from . import nodes_c03 as N
+
+    rev, push = 0, 1
+    try:
+        wf = Workflow("probe", autoload=None)
+        a, b, c = N.SrcU(label="a"), N.SrcU(label="b"), N.C3(label="c")
+        for n in (a, b, c):
+            wf.add_child(n)
+        c.inputs.z.connect(a.outputs.o)
+        c.inputs.z.connect(b.outputs.o)
+        w2 = pickle.loads(pickle.dumps(wf))
+        rev = int([p.owner.label for p in w2.children["c"].inputs.z.connections] == ["b", "a"])
+    except Exception:  # noqa: BLE001
+        pass
+    try:
+        m = N.MU(label="m")
+        m.inputs.z.value = 5
+        m.children["c"].inputs.z.value = 7
+        m2 = pickle.loads(pickle.dumps(m))
+        push = int(_canon(m2.children["c"].inputs.z.value) == "5")
+    except Exception:  # noqa: BLE001
+        pass
+    _VARIANT = (rev, push)
+    return _VARIANT
+
+
 def run_impl(case):
+    import pickle
+
     from . import nodes_c03 as N
 
     N.reset()
+    variant = _variant()
     nodes, chans, links = layout(case["nodes"])
     tops = [getattr(N, spec)(label=f"n{i}") for i, spec in enumerate(case["nodes"])]
-    nobj = []
-    for n in nodes:
-        o = tops[n["path"][0]]
-        for lab in n["path"][1:]:
-            o = o.children[lab]
-        nobj.append(o)
+    wf = None
+    if case.get("wf"):
+        from pyiron_workflow import Workflow
+
+        wf = Workflow("w", autoload=None)
+        for t in tops:
+            wf.add_child(t)
+    world = {}
+
+    def resolve():
+        nobj = []
+        for n in nodes:
+            o = tops[n["path"][0]]
+            for lab in n["path"][1:]:
+                o = o.children[lab]
+            nobj.append(o)
+        cobj = []
+        for c in chans:
+            o = nobj[c["node"]]
+            cobj.append((o.inputs if c["panel"] == "in" else o.outputs)[c["label"]])
+        world["nobj"], world["cobj"] = nobj, cobj
+        world["index"] = {id(ch): i for i, ch in enumerate(cobj)}
+
+    resolve()
+    nobj, cobj, index = world["nobj"], world["cobj"], world["index"]
     for n, o in zip(nodes, nobj):
         spec = SPECS[n["spec"]]
+        assert o.label == n["label"], f"layout drift (label of {n})"
         assert o.inputs.labels == [lab for lab, _h in spec[0]], f"layout drift (inputs of {n})"
         assert o.outputs.labels == [lab for lab, _h in spec[1]], f"layout drift (outputs of {n})"
-    cobj = []
-    for c in chans:
-        o = nobj[c["node"]]
-        cobj.append((o.inputs if c["panel"] == "in" else o.outputs)[c["label"]])
-    index = {id(ch): i for i, ch in enumerate(cobj)}
     # the value links the layout predicts are the ones the library made
     seen_links = sorted((i, index.get(id(ch.value_receiver), -1)) for i, ch in enumerate(cobj)
                         if ch.value_receiver is not None)
@@ -544,8 +690,23 @@ def run_impl(case):
     for c, ch in zip(chans, cobj):
         assert ch.type_hint is c["hint"], f"hint drift on {c}"
     calls = []
+    pool = {}
+
+    def pyval(k):
+        from pyiron_workflow.channels import NOT_DATA
+
+        if k == "ND":
+            return NOT_DATA
+        if k < 100:
+            return k
+        if k < 200:
+            return f"s{k}"
+        if k not in pool:
+            pool[k] = N.make(k)
+        return pool[k]
 
     def snap():
+        cobj, nobj, index = world["cobj"], world["nobj"], world["index"]
         return {
             "vals": [_canon(ch.value) for ch in cobj],
             "conns": [[index.get(id(p), -1) for p in ch.connections] for ch in cobj],
@@ -557,18 +718,26 @@ def run_impl(case):
 
     def arg(a):
         if isinstance(a, str) and a.startswith("@"):
-            return cobj[int(a[1:])]
-        return _pyval(a)
+            return world["cobj"][int(a[1:])]
+        return pyval(a)
+
+    def dumps(obj, backend):
+        if backend == "cloud":
+            import cloudpickle
+
+            return cloudpickle.dumps(obj)
+        return pickle.dumps(obj)
 
     states = [{"op": None, "res": "init", **snap()}]
     for op in case["ops"]:
+        nobj, cobj = world["nobj"], world["cobj"]
         n0 = len(N.CALLS)
         who = -1
         res = "ok"
         try:
             kind = op[0]
             if kind == "set":
-                cobj[op[1]].value = _pyval(op[2])
+                cobj[op[1]].value = pyval(op[2])
             elif kind == "assign":
                 c = chans[op[1]]
                 o = nobj[c["node"]]
@@ -595,6 +764,40 @@ def run_impl(case):
             elif kind == "flag":
                 nobj[op[1]].running = bool(op[2])
                 nobj[op[1]].failed = bool(op[3])
+            elif kind == "rt":
+                # the whole graph through pickle; the history goes on with the copy
+                assert wf is not None, "rt needs a workflow case"
+                try:
+                    new = pickle.loads(dumps(wf, op[1]))
+                except AssertionError:
+                    raise
+                except Exception:  # noqa: BLE001
+                    res = "Serial"
+                else:
+                    wf = new
+                    tops = [wf.children[f"n{i}"] for i in range(len(tops))]
+                    resolve()
+            elif kind == "rtnode":
+                # one free-standing top-level node through pickle; the copy takes the place of the original, which
+                # is retired (cut off from its partners, no foreign receiver keeps pointing at it)
+                assert wf is None and len(nodes[op[1]]["path"]) == 1, "rtnode needs a free-standing top-level node"
+                t = nodes[op[1]]["path"][0]
+                try:
+                    new = pickle.loads(dumps(tops[t], op[2]))
+                except AssertionError:
+                    raise
+                except Exception:  # noqa: BLE001
+                    res = "Serial"
+                else:
+                    old = [cobj[c] for c in scope_of(nodes, [op[1]])]
+                    oldids = {id(ch) for ch in old}
+                    for ch in old:
+                        ch.disconnect_all()
+                    for ch in cobj:
+                        if ch.value_receiver is not None and id(ch.value_receiver) in oldids:
+                            ch.value_receiver = None
+                    tops[t] = new
+                    resolve()
             else:
                 raise AssertionError(f"unknown op {op}")
         except AssertionError:
@@ -618,7 +821,9 @@ def run_impl(case):
         stats[f"conns:{d['k']}"] = 1
     if "path" in d:
         stats[f"path:{d['path']}"] = 1
-    return {"obs": obs, "states": states, "stats": stats}
+    if "adv" in d:
+        stats[f"adv:{d['adv']}"] = 1
+    return {"obs": obs, "states": states, "stats": stats, "variant": list(variant)}
 
 
 def nontrivial(case, r):
@@ -626,7 +831,7 @@ def nontrivial(case, r):
         k = s["op"][0]
         if k == "run" and s["res"] in ("invoked", "Readiness", "invoked+Type"):
             return True
-        if k in ("set", "assign", "setinputs", "fetch", "link", "copyio") and s["res"] == "ok":
+        if k in ("set", "assign", "setinputs", "fetch", "link", "copyio", "rt", "rtnode") and s["res"] == "ok":
             return True
     return False
 
